@@ -14,7 +14,7 @@ import (
 
 func init() {
 	register("C06",
-		"WAKE: every potentially unbounded wait of the send goroutine (enumerated over the same-goroutine call graph) has a case on resendTicker.C or on resendSignal whose body reaches queue.resend, or is itself timer-bounded - tail loss is repaired wherever the loop waits. BOUNDED: the waits inside the resend path (syncer.waitForSync, proceedAfterTime) have a timer and a quit alternative. QUIESCE: queue.resend transmits only under the fact base != top (nothing is retransmitted once everything is acknowledged) and the resend ticker is re-armed after each resend. NACKWIRE: in the receive loop a NACK that asks for a resend reaches a non-blocking send on resendSignal (capacity >= 1) on every path, a valid ACK reaches a non-blocking send on receivedACKSignal, the window-full loop re-tests size() < n before every wait, and the receiver suppresses a NACK only under a time-bounded fact. RATELIMIT: queue.resend is skipped only while the last resend is recent or the queue is empty, and lastResend is refreshed only by a real resend. KA and TICK (as C13) and WIN-4 (as C01) are re-checked here because the property also promises a visible failure with keepalive on and an end to retransmission once everything is acknowledged. STARVE: outside the send goroutine the resend ticker is restarted only under the fact that an ACK/NACK made progress on our own queue, so inbound traffic cannot postpone a retransmission forever. Not decided: bounds on delivery time, absence of livelock between syncer, NACK back-off and resend (liveness over all schedules is out of reach of a static argument here).",
+		"WAKE: every potentially unbounded wait of the send goroutine (enumerated over the same-goroutine call graph) has a case on resendTicker.C or on resendSignal whose body reaches queue.resend, or is itself timer-bounded - tail loss is repaired wherever the loop waits. BOUNDED: the waits inside the resend path (syncer.waitForSync, proceedAfterTime) have a timer and a quit alternative. QUIESCE: queue.resend transmits only under the fact base != top (nothing is retransmitted once everything is acknowledged) and the resend ticker is re-armed after each resend. NACKWIRE: in the receive loop a NACK that asks for a resend reaches a non-blocking send on resendSignal (capacity >= 1) on every path, a valid ACK reaches a non-blocking send on receivedACKSignal, the window-full loop re-tests size() < n before every wait, and the receiver suppresses a NACK only under a time-bounded fact. RATELIMIT: queue.resend is skipped only while the last resend is recent or the queue is empty, and lastResend is refreshed only by a real resend. KA and TICK (as C13) and WIN-4 (as C01) are re-checked here, and the obligations of C18 (no lock-order deadlock or race in gbn) and C09 (exact window accounting) are imported as LAYER/<id>:<rule>, because the property also promises a visible failure with keepalive on and an end to retransmission once everything is acknowledged. STARVE: outside the send goroutine the resend ticker is restarted only under the fact that an ACK/NACK made progress on our own queue, so inbound traffic cannot postpone a retransmission forever. Not decided: bounds on delivery time, absence of livelock between syncer, NACK back-off and resend (liveness over all schedules is out of reach of a static argument here).",
 		[]string{"time.Ticker delivers a tick on C at most one period after Reset"},
 		runC06)
 }
@@ -465,6 +465,10 @@ func runC06(c *Checker) {
 	// 'with keepalive enabled the calls of both endpoints fail within a bounded time': the keepalive wiring
 	ruleKA(c)
 	ruleTICK(c)
+	// progress needs the goroutines to be able to run at all (no lock-order deadlock, no race on the
+	// window state: C18) and the window accounting to be exact (C09: size(), admission, sequence
+	// space) - their obligations are part of this check under LAYER/<id>:<rule>
+	importLayers(c, "C18", "C09")
 	// 'stops retransmitting once everything has been acknowledged' also needs the base moves to be honoured
 	ruleWIN4(c)
 }
